@@ -250,8 +250,13 @@ pub fn c15_huffman(src: &mut Src, ctx: &mut Ctx) -> CaseResult {
         1 => src.range_usize(2, 9),
         _ => src.range_usize(1, max_n),
     };
-    let style = src.below(7);
+    let style = src.below(8);
     let kind = src.below(5);
+    // deep trees (codewords longer than 64 and 128 bits) need many geometrically decreasing
+    // weights, which only the float types can represent
+    let deep = style == 7 && kind >= 3;
+    let n = if deep { src.range_usize(60, 140) } else { n };
+    let deep_reversed = src.bool();
     ctx.label(match kind {
         0 => "type:u8",
         1 => "type:u32",
@@ -280,12 +285,14 @@ pub fn c15_huffman(src: &mut Src, ctx: &mut Ctx) -> CaseResult {
         };
         shape.push(w);
     }
+    ctx.label_if(deep, "style:deep_geometric");
     ctx.label(match style {
         0 => "style:ties_and_zeros",
         1 => "style:powers_of_two",
         2 => "style:fibonacci",
         3 => "style:nearly_equal",
         4 => "style:dominant",
+        7 => "style:deep_geometric_or_random",
         _ => "style:random",
     });
     if n >= 3 {
@@ -334,16 +341,25 @@ pub fn c15_huffman(src: &mut Src, ctx: &mut Ctx) -> CaseResult {
             let exact = src.ratio(2, 3);
             let k = src.below(240) as i32 - 140; // 2^-140 .. 2^99
             let scale = 2f32.powi(k.clamp(-125, 60));
-            let w: Vec<f32> = shape
-                .iter()
-                .map(|&x| {
-                    if exact {
-                        ((x % (1 << 12)) as f32) * scale
-                    } else {
-                        (x as f32) * 1.000_123 * scale + if x % 3 == 0 { f32::EPSILON * scale } else { 0.0 }
-                    }
-                })
-                .collect();
+            let w: Vec<f32> = if deep {
+                // 2^-i, exactly representable down to 2^-126 (then clamped: ties at the bottom)
+                let mut v: Vec<f32> = (0..n).map(|i| 2f32.powi(-((i as i32).min(125)))).collect();
+                if deep_reversed {
+                    v.reverse();
+                }
+                v
+            } else {
+                shape
+                    .iter()
+                    .map(|&x| {
+                        if exact {
+                            ((x % (1 << 12)) as f32) * scale
+                        } else {
+                            (x as f32) * 1.000_123 * scale + if x % 3 == 0 { f32::EPSILON * scale } else { 0.0 }
+                        }
+                    })
+                    .collect()
+            };
             note!(ctx, "f32 weights {:?}", w);
             ctx.label_if(k < -30, "float_scale_tiny");
             if src.ratio(1, 10) {
@@ -372,16 +388,24 @@ pub fn c15_huffman(src: &mut Src, ctx: &mut Ctx) -> CaseResult {
             let exact = src.ratio(2, 3);
             let k = src.below(1900) as i32 - 1000;
             let scale = 2f64.powi(k);
-            let w: Vec<f64> = shape
-                .iter()
-                .map(|&x| {
-                    if exact {
-                        (x as f64) * scale
-                    } else {
-                        (x as f64) * 1.000_000_123 * scale + if x % 3 == 0 { f64::EPSILON * scale } else { 0.0 }
-                    }
-                })
-                .collect();
+            let w: Vec<f64> = if deep {
+                let mut v: Vec<f64> = (0..n).map(|i| 2f64.powi(-(i as i32))).collect();
+                if deep_reversed {
+                    v.reverse();
+                }
+                v
+            } else {
+                shape
+                    .iter()
+                    .map(|&x| {
+                        if exact {
+                            (x as f64) * scale
+                        } else {
+                            (x as f64) * 1.000_000_123 * scale + if x % 3 == 0 { f64::EPSILON * scale } else { 0.0 }
+                        }
+                    })
+                    .collect()
+            };
             note!(ctx, "f64 weights {:?}", w);
             ctx.label_if(k < -60, "float_scale_tiny");
             if src.ratio(1, 10) {
